@@ -50,7 +50,6 @@ def empty_twin_scripts(rng):
                     s.add("newcache C")
                     ln = s.add("unwind U C %s %s %s S" % (kind, hx(a if kind == "ip" else a + 1), regs), tag="%s:%s:empty-twin:%s" % (arch, pres, kind))
                     s.meta[ln] = {"twin_real": 3 + i % 50, "sp": sp, "arch": arch}
-        s.nomodel = True
         out.append(("empty-twins-%s" % arch, s))
     return out
 
